@@ -197,6 +197,19 @@ Theorem C17_deque_conservation_guarded : forall k progs sched,
 Proof. exact DequeAbaLin.deque_conservation_guarded_lemma. Qed.
 Print Assumptions C17_deque_conservation_guarded.
 
+(* in particular the body of the refuted full claim [deque_exactly_once_all_schedules] (2.2) holds
+   for every run in which F15 does not strike: nothing is delivered more often than it was pushed,
+   and once all threads are done and the deque reports empty every pushed value has been delivered *)
+Theorem C17_deque_exactly_once_guarded : forall k progs sched,
+  let c := run dq_tstep sched (dq_init k, dq_locals progs) in
+  let lg := dlog (fst c) in
+  aba (fst c) = false ->
+  (forall v, count_occ_N v (popped_vals lg) <= count_occ_N v (pushed_vals lg))%nat /\
+  (al (anc (fst c)) = 0 -> (forall t, dq_done (snd c t) = true) ->
+   forall v, count_occ_N v (popped_vals lg) = count_occ_N v (pushed_vals lg)).
+Proof. exact DequeAbaLin.deque_exactly_once_guarded_lemma. Qed.
+Print Assumptions C17_deque_exactly_once_guarded.
+
 (* linearizability against the two-ended list (linearization points: successful anchor CAS of
    push / pop, anchor load of a pop that sees a null end), recorded by the ghost instrumentation
    [dq_tstep_i] of Model/DequeLin.v, which leaves the model's step untouched
